@@ -536,3 +536,53 @@ theorem bqRe_match_rest (W Q N : CSet) (q : Nat) (rest : List Nat) (hrest : ∀ 
       simp [Option.orElse, bqBody, hc]
 
 end MindsVerif.Re
+
+namespace MindsVerif.Re
+
+/-- the identifier core fails where a run without `B` characters is followed by a character of neither class -/
+theorem idCore_none_stop (W A B : CSet) (d : Nat) (hA : A.mem d = false) (hB : B.mem d = false) (rest : List Nat) :
+    ∀ (u : List Nat) (pre : List Nat), (∀ x ∈ u, B.mem x = false) →
+    matchAt W (idCore A B) ⟨pre, u ++ d :: rest⟩ = none := by
+  intro u pre hb
+  unfold matchAt idCore
+  rw [m_seq, m_star]
+  have hnone : ∀ (t : List Nat) (pre : List Nat) (n : Nat), (∀ x ∈ t, B.mem x = false) →
+      starLoop (fun q k' => m W (.set A) q k') true n ⟨pre, t ++ d :: rest⟩
+        (fun q => m W (.seq (.seq (.set B) (.star true (.set B))) (.star true (.set A))) q some) = none := by
+    intro t
+    induction t with
+    | nil =>
+      intro pre n _
+      cases n with
+      | zero => simp [starLoop, id_tail_none W A B ⟨pre, d :: rest⟩ (fun c t hs => by cases hs; exact hB)]
+      | succ n =>
+        simp only [List.nil_append, starLoop, if_true, (isSetStep_m W A).cons, hA, Bool.false_eq_true, if_false]
+        simp [Option.orElse, id_tail_none W A B ⟨pre, d :: rest⟩ (fun c t hs => by cases hs; exact hB)]
+    | cons x t iht =>
+      intro pre n hb
+      have hx : B.mem x = false := hb x List.mem_cons_self
+      have htail := id_tail_none W A B ⟨pre, x :: (t ++ d :: rest)⟩ (fun c t' hs => by cases hs; exact hx)
+      cases n with
+      | zero => simp [starLoop, htail]
+      | succ n =>
+        simp only [List.cons_append, starLoop, if_true, (isSetStep_m W A).cons]
+        by_cases hax : A.mem x = true
+        · simp only [hax, if_true, List.length_cons, Nat.lt_succ_self]
+          rw [iht (x :: pre) n (fun y hy => hb y (List.mem_cons_of_mem _ hy))]
+          simp [Option.orElse, htail]
+        · simp only [hax, Bool.false_eq_true, if_false]
+          simp [Option.orElse, htail]
+  exact hnone u pre _ hb
+
+/-- `S+` on an all-`S` run followed by a character outside `S` stops in front of it -/
+theorem plus_set_stop (W S : CSet) (d : Nat) (hd : S.mem d = false) (pre : List Nat) (c : Nat) (t rest : List Nat)
+    (hall : ∀ x ∈ c :: t, S.mem x = true) :
+    matchAt W (.seq (.set S) (.star true (.set S))) ⟨pre, c :: (t ++ d :: rest)⟩ = some ⟨(c :: t).reverse ++ pre, d :: rest⟩ := by
+  unfold matchAt
+  rw [m_seq, m_set_cons, if_pos (hall c List.mem_cons_self), m_star]
+  have := star_set_stop (isSetStep_m W S) d hd rest t (c :: pre) ((t ++ d :: rest).length + 1) some
+    ⟨t.reverse ++ c :: pre, d :: rest⟩ (fun x hx => hall x (List.mem_cons_of_mem _ hx)) (by simp <;> omega) rfl
+  rw [this]
+  simp
+
+end MindsVerif.Re
